@@ -254,8 +254,8 @@ impl<'a> PrettyPrinter<'a> {
                 // target or condition
                 FlowItem::spaced(self.convert_expr(ctx, expr))
             } else if let Some(args) = child.cast() {
-                // args
-                FlowItem::tight_spaced(self.convert_parenthesized_args(ctx, args))
+                // args (a content block after the parentheses belongs to them)
+                FlowItem::tight_spaced(self.convert_args(ctx, args))
             } else {
                 FlowItem::none()
             }
